@@ -280,10 +280,14 @@ def reverse(codec, m, b, e, numeric, probes):
     pairs = urllib.parse.parse_qsl(u.query, keep_blank_values=True)
     alt = [v for k, v in pairs if k == "$alt"]
     pairs = [(k, v) for k, v in pairs if k != "$alt"]
-    if numeric and alt != ["json;enum-encoding=int"]:
+    check_enums = numeric is not None
+    numeric = bool(numeric)
+    if check_enums and numeric and alt != ["json;enum-encoding=int"]:
         raise Reject("alt_param", f"rest-numeric-enums is on but $alt={alt}")
-    if not numeric and alt:
+    if check_enums and not numeric and alt:
         raise Reject("alt_param", f"rest-numeric-enums is off but $alt={alt} was sent")
+    if not check_enums:
+        numeric = bool(alt)
     qd, qtops = query_to_dict(desc, pairs, numeric, probes)
     body_field = b.get("body") or ""
     # 3. body
